@@ -146,6 +146,17 @@ func codecSources(p *Prog, fc *FuncCtx, e ast.Expr, depth int) []codecSource {
 		}
 		return []codecSource{{tk, false, "value literal"}}
 	case *ast.CallExpr:
+		if id, ok := ast.Unparen(x.Fun).(*ast.Ident); ok && id.Name == "new" && len(x.Args) == 1 {
+			if _, isB := info.Uses[id].(*types.Builtin); isB {
+				tk := typeKeyOf(x)
+				if t := info.TypeOf(x); t != nil {
+					if pt, ok := t.Underlying().(*types.Pointer); ok {
+						tk = namedTypePkg(pt.Elem()) + "." + namedTypeName(pt.Elem())
+					}
+				}
+				return []codecSource{{tk, false, "allocated here"}}
+			}
+		}
 		fn := Callee(info, x)
 		if callee := p.CtxOfObj(fn); callee != nil {
 			// constructor: classify its returns in its own context; parameters / receiver fields stay shared
@@ -185,8 +196,17 @@ func codecSources(p *Prog, fc *FuncCtx, e ast.Expr, depth int) []codecSource {
 				}
 			}
 		}
-		if rhs, idx, _, ok := fc.SoleDefRHS(o); ok && idx < 0 {
-			base := codecSources(p, fc, rhs, depth+1)
+		zeroDecl := false
+		if ds := fc.Defs(o); len(ds) == 1 {
+			if vs, isVS := fc.G.V[ds[0]].Node.(*ast.ValueSpec); isVS && len(vs.Values) == 0 {
+				zeroDecl = true // var v T: nothing in it yet, the fields are assigned below
+			}
+		}
+		if rhs, idx, _, ok := fc.SoleDefRHS(o); (ok && idx < 0) || zeroDecl {
+			var base []codecSource
+			if !zeroDecl {
+				base = codecSources(p, fc, rhs, depth+1)
+			}
 			// field overrides: o.Packer = X / o.Unpacker = X
 			var over []codecSource
 			overridden := map[string]bool{}
